@@ -312,7 +312,7 @@ def run_case(spec, workdir):
             fdd = identify(d2[i], False)
             if fdd[:2] != (fidx[i], exp_h[i]):
                 probs.append("after reuse, description %d refers to (file %d, hdu %d), selected (file %d, hdu %d)" % (i, fdd[0], fdd[1], fidx[i], exp_h[i]))
-    if entry == "load" and spec["seed"] % 2 == 0 and nf >= 2 and len(common) >= 2:
+    if entry in ("load", "simple", "args") and spec["seed"] % 2 == 0 and nf >= 2 and len(common) >= 2:
         # load() called from four threads of one process with DIFFERENT selections: every caller gets the HDUs it selected
         from vlib import threads
 
@@ -322,7 +322,7 @@ def run_case(spec, workdir):
             c = collection.load(paths[:2], hdu_index=h, wcs_key=" ")
             return [e[1] for e in c.export_simple()]
 
-        ncalls, bad = threads.concurrent_vs_serial([(lambda h=h: one(h)) for h in sels], lambda a, b: a == b, nthreads=4, rounds=150, seed=spec["seed"], budget_s=5.0)
+        ncalls, bad = threads.concurrent_vs_serial([(lambda h=h: one(h)) for h in sels], lambda a, b: a == b, nthreads=4, rounds=150, seed=spec["seed"], budget_s=4.0)
         counters["loads_from_threads"] += ncalls
         if bad:
             probs.append("%d of %d load() calls made concurrently from 4 threads with different HDU selections returned other HDUs than the same calls made serially" % (len(bad), ncalls))
